@@ -319,6 +319,12 @@ ASSUMPTIONS = ['A-scan: canvas::scan builds a rectangular grid with at least one
                'A-derive: derived PartialEq of Cell / Point, Copy/Clone of Point, Rect, HitPolicy',
                'A-std: slice::contains on chars; a Vec\'s length fits usize; error constructors are opaque',
                'R17: Result::and_then / map with a closure = match; R18: iteration over a slice range = indexed loop plus an asserted range check; R19: match scrutinee bound to a local (Verus crashes on guards over an indexed place); R1m: nested iter_mut = indexed loops']
-NOT_DECIDED = {'C19': ['Canvas::plane (grid -> plane) and Recognizer::recognize_horizontal_table (plane -> components) and builder::build (components -> DecisionTable): not yet under contract',
+NOT_DECIDED = {'C19': ['Canvas::plane (grid -> plane), Recognizer::recognize_horizontal_table (plane -> components), Plane::pivot and builder::build (components -> DecisionTable) are not under contract: only the BOUNDED stand-in drawn-tables-are-recognised-as-drawn looks at them',
                        'evaluation equivalence with the table loaded from XML; the text loop of canvas::scan',
                        'that the preconditions on the plane (A-plane) hold for every text that scan accepts: panic freedom is proved per function under these preconditions, not end to end']}
+
+BOUNDED = {'C19': [{'name': 'drawn-tables-are-recognised-as-drawn', 'script': 'drawdiff.py', 'args': [],
+                    'functions': ['canvas::scan', 'Canvas::plane', 'Recognizer::recognize (recognize_horizontal_table, pivot)', 'builder::build'],
+                    'bound': '346 generated drawings: rules as rows and rules as columns, 1..3 inputs, 1..2 outputs, 0..2 annotations, 1..3 rules, each of the 11 hit policy markers, with and without information item name and '
+                             'allowed values (rules as rows), cell texts at varying offsets and widths: dmntk_recognizer::build gives back hit policy, aggregator, orientation, input expressions, allowed values, output label / '
+                             'component names, annotation names and all rule entries in order (white space around cell texts aside)'}]}
